@@ -168,8 +168,12 @@ void gen_host_op(Rng& r, Plan& p, bool allow_run, int max_run) {
         p.add("dataw", {(s64)(r.chance(1, 2) ? r.below(0x2000) : (r.next() & 0x7FFF)), (s64)(r.next() & 0xFFFF)});
     } else if (x < 76) {
         p.add("progw", {(s64)(0x1000 + r.below(0x3000)), (s64)(r.next() & 0xFFFF)});
-    } else if (x < 82) {
+    } else if (x < 77) {
         p.add("dma", {(s64)r.below(8), (s64)r.below(0x7000), (s64)r.below(0x7000), (s64)r.range(1, 8)});
+    } else if (x < 82) {
+        // few DMA channels, so that a claim made before a Reset and an unclaimed transfer after it meet on the same one
+        p.add("dmax", {(s64)(r.chance(2, 3) ? r.below(2) : r.below(8)), (s64)(r.chance(1, 2) ? 3 : r.below(3)), (s64)r.below(2), (s64)r.below(2), (s64)r.below(0x7000),
+                       (s64)r.below(64), (s64)r.range(1, 6)});
     } else if (x < 90) {
         p.add("mmior", {(s64)mmio_fields()[r.below(mmio_fields().size())].off});
     } else if (x < 93) {
@@ -264,6 +268,39 @@ u64 apply_host_op(Box& b, FwConfig& fw, const Plan& plan, const Step& s, std::st
                 }
             }
             return acc & 0xFFFFFFFF;
+        }
+        if (s.op == "dmax") {
+            // a short DMA between DSP memory and external memory through the AHBM. arg1 < 3: that AHBM channel is configured and
+            // claims the DMA channel first; arg1 == 3: only AHBM channel 0's unit/direction are written and NO claim register is
+            // touched - the transfer takes whatever routing the machine's history (or its Reset) left behind
+            u16 c = (u16)(s.arg(0) & 7);
+            int k = (int)(s.arg(1) & 3);
+            bool to_ext = s.arg(2) & 1;
+            int unit = (int)(1 + (s.arg(3) & 1)); // 1: 16 bit, 2: 32 bit
+            u16 base = (u16)(0x0E2 + 6 * (k < 3 ? k : 0));
+            t.MMIOWrite(base, (u16)(unit << 4));
+            t.MMIOWrite((u16)(base + 2), (u16)((to_ext ? 1 : 0) << 8));
+            if (k < 3)
+                t.MMIOWrite((u16)(base + 4), (u16)(1u << c));
+            u16 keep = t.MMIORead(0x1BE);
+            u32 dsp = (u32)(s.arg(4) & 0x7FFE), ext = 0x20000000u + (u32)((s.arg(5) & 0xFF) * 4);
+            u32 n = (u32)std::max<s64>(1, std::min<s64>(s.arg(6), 8));
+            u16 step = (u16)(unit == 2 ? 2 : 1);
+            t.MMIOWrite(0x1BE, c);
+            t.MMIOWrite(0x1C0, (u16)(to_ext ? dsp : ext));
+            t.MMIOWrite(0x1C2, (u16)((to_ext ? dsp : ext) >> 16));
+            t.MMIOWrite(0x1C4, (u16)(to_ext ? ext : dsp));
+            t.MMIOWrite(0x1C6, (u16)((to_ext ? ext : dsp) >> 16));
+            t.MMIOWrite(0x1C8, (u16)n);
+            t.MMIOWrite(0x1CA, 1);
+            t.MMIOWrite(0x1CC, 1);
+            t.MMIOWrite(0x1CE, (u16)(to_ext ? step : step * 2)); // external addresses are byte addresses
+            t.MMIOWrite(0x1D0, (u16)(to_ext ? step * 2 : step));
+            t.MMIOWrite(0x1DA, (u16)((to_ext ? 0x0070 : 0x0007) | (unit == 2 ? 1 << 10 : 0)));
+            t.MMIOWrite(0x1DE, 0x40C0);
+            if (keep < 8)
+                t.MMIOWrite(0x1BE, keep);
+            return 0;
         }
         if (s.op == "dma") { // small in-range DSP->DSP copy on channel c
             u16 c = (u16)(s.arg(0) & 7);
